@@ -214,4 +214,14 @@ theorem kernel_add_sub_int_dec (prof : Profile) (sub : Bool) (d : Dec) (i : Int)
     (if sub then Gen.K.int_sub_decimal prof i d else Gen.K.int_add_decimal prof i d) = addSubInt sub true d i :=
   Kernels.add_sub_int_dec_eq prof sub d i
 
+/-- the integer forms of `checked_add` / `checked_sub` in both operand orders (macro bodies instantiated with `i64`) -/
+theorem kernel_decimal_checked_add_int (prof : Profile) (d : Dec) (i : Int) :
+    Gen.K.decimal_checked_add_int prof d i = .ok (checkedAddSubInt false false d i) := Kernels.decimal_checked_add_int_eq prof d i
+theorem kernel_decimal_checked_sub_int (prof : Profile) (d : Dec) (i : Int) :
+    Gen.K.decimal_checked_sub_int prof d i = .ok (checkedAddSubInt true false d i) := Kernels.decimal_checked_sub_int_eq prof d i
+theorem kernel_int_checked_add_decimal (prof : Profile) (i : Int) (d : Dec) :
+    Gen.K.int_checked_add_decimal prof i d = .ok (checkedAddSubInt false true d i) := Kernels.int_checked_add_decimal_eq prof i d
+theorem kernel_int_checked_sub_decimal (prof : Profile) (i : Int) (d : Dec) :
+    Gen.K.int_checked_sub_decimal prof i d = .ok (checkedAddSubInt true true d i) := Kernels.int_checked_sub_decimal_eq prof i d
+
 end Fpdec.Props.C01
